@@ -70,6 +70,28 @@ RULE = ('random model scripts (1-5 equations; lags/leads, {parameters}, <errors>
         'variables; 40% of the main population gets twin / member-like run-time variables too. In all of these EVERY SERIES '
         'IS UNIQUE (base = hash of the name + position; counted: series-all-unique), so a column holding another '
         'variable\'s series cannot pass. '
+        'EXTENSION MIXINS x ENTRY POINTS x THE FORM OF THE FLAGS (own workers): every model recipe (always with an underscore-prefixed '
+        'variable, declared or run-time; ALIASES incl. aliases of underscore-prefixed variables, chained and dangling, '
+        'PREFERRED_NAMES) is built once per class kind {plain, AliasMixin, TracerMixin (solved with trace=True), '
+        'PandasIndexFeaturesMixin, ProgressBarMixin, all four with AliasMixin outermost, all four with AliasMixin innermost} '
+        '(kinds whose mixin cannot be imported are left out and counted) and exported through obj.to_dataframe(...) and '
+        'fsic.tools.model_to_dataframe(obj, ...) with flag triples = the 8 plain-bool combinations + every form in {np.True_, '
+        'np.False_, 1, 0, 1.0, 0.0, \'x\', \'\', None, keyword omitted; thorough also 2, -1, np.int64, np.float64, -0.0, NaN, '
+        '\'False\', \'0\', \' \', np.int8, np.float32} in every flag position next to plain-bool others + all three flags in one form '
+        'family (np.bool_ / int / float / str, every truth combination), all None, all omitted + random mixed triples; alias '
+        'kinds also with use_aliases= in 11 forms.  Every table is compared (index, labels incl. their type, cells by bits, '
+        'dtypes) with (1) the storage-level ground truth, (2) the table of the PLAIN class of the same recipe through the same '
+        'entry point with the same flags (df-mixin-export-differs:<class>:<entry>; with truthy use_aliases only the labels may '
+        'differ and each must be the name or one of its aliases), (3) the table of the same object with bool(flag) for every flag '
+        '(df-flag-form:<form>:<flag>, the flag found by single substitution), and (4) the Lean model (classExport over the '
+        'MRO, truthy of each form, reflected defaults for omitted keywords).  Linkers of 1-3 such submodels in variants (linker '
+        'kind in {plain, AliasMixin}, submodel kinds: all of one kind for every kind, alias linker over alias / plain submodels, '
+        'random mixtures) through linker.to_dataframes, fsic.tools.linker_to_dataframes, linker.to_dataframe and '
+        'fsic.tools.model_to_dataframe(linker), same three references (the all-plain variant as class reference; the differing '
+        'table names the class: linker:<kind> / submodel:<kind>).  from_dataframe(table, strict=<form>) on the table of the class '
+        'variables and on one with a foreign column: outcome (raise or span + stored series + bool(strict)) must be the one for '
+        'bool(strict) (fd-flag-form:<form>:strict), the first must reproduce span and values in every form.  Counted per '
+        'class kind x entry point x form (mixin|<class>|<entry>|<form>), per flag x form x truth value (flag-form:*). '
         'distinct = distinct (instance recipe, entry point, flags) resp. distinct symbol list; non-trivial = at least '
         'one variable and one period resp. a non-empty list')
 TRUSTED = ['pandas (DataFrame construction from a dict of arrays / a list of dicts, Index construction from the span, '
@@ -97,13 +119,17 @@ ASSUMPTIONS = ['variable names are distinct and none is called status/iterations
                'symbols_roundtrip_iff_validTypes shows it is exactly what the round trip needs)',
                'a str / non-numeric object in a lags/leads CELL is outside the model (int(field) on it is modelled as '
                'a raise); symbols_to_dataframe never produces such a cell and nothing compared depends on it',
+               'the extension mixins are compared with the plain class of the same recipe; an ALIASES map whose KEY is the name of a '
+               'variable of the class is outside (open finding df-alias-shadows-variable: the column of that name holds the target\'s '
+               'series); what an OMITTED status / iterations keyword means is not in the property (the oracle does not check their '
+               'presence then; the model uses the reflected defaults of model_to_dataframe; omitted include_internal = not requested)',
                'position of the status/iterations columns and the order of the linker dict are not compared '
                '(the property is silent); the Lean theorems state what the code does (appended last, linker first)']
 
 META = {
-    "text": "Theorems for every store (any variables, span, cell type), flag combination, linker and symbol list: exported columns = model-order names (underscore-prefixed iff requested) ++ status? ++ iterations?, no duplicates, index = span, one cell per period, each column holds exactly its series; container export = index order; linker export = one table per submodel plus the linker's, keyed correctly (guard: linker name not a submodel key; count theorem without the guard); NAME vs STORAGE KEY made explicit (Obj = the instance __dict__, storageKey name = '_' ++ name, getItem = obj[name]): storageKey_injective, export_reads_own_series (for EVERY name list, underscore twins and member-like names included, the column of k is the __dict__ entry under storageKey k and, when the entries are pairwise different, of no other key: not the entry under k itself, not another variable's), container_reads_own_series, toObj_getItem (the __dict__ a constructor builds gives every name its own entry), from_dataframe_reads_own_series (round trip down to __dict__), attrLookup_differs_at_twin (Python's getattr would return Y's series for _Y; equal to obj[k] off __dict__ keys); from_dataframe on any export reproduces span and the cast of every class variable (identity for float models); symbols_roundtrip: for EVERY symbol list, with the reflected coercion of the installed pandas, the code's decoder (is_missing = None or float NaN -> None in name/lags/leads/equation/code, int(field) otherwise for lags/leads) returns the original list (iff every type is a Type member); in general the round trip holds for every list IFF the decoder maps the coercion's missing markers back to None in every optional field, which the code's decoder does for any coercion whose markers are None/NaN. String identity: codeDecoder_preserves_strings (for EVERY string s a present str cell decodes to s itself in name/equation/code: is_missing never fires on a str, '' and whitespace-only included), present_strings_roundtrip (under ANY coercion, whenever the round trip returns, it returns one symbol per input symbol and every present str field unchanged), symbols_roundtrip_strings (installed pandas: it does return), toPy_injective ('' and None, 'x ' and 'x' are different values of the model, so equality with the original list is field-exact), normalising_decoder_breaks_roundtrip (a decoder that alters even one string in one str field fails on a one-symbol list). Tied to fsic/tools.py, BaseModel.from_dataframe, VectorContainer.to_dataframe by exact comparison of tables (cells as IEEE bits) on generated models/linkers/symbol lists; symbol round trips compared three ways (real output == model output == original list), including parser outputs and hand-built lists whose str fields are '' or carry leading/trailing/only whitespace (strings cross to the driver JSON-escaped and come back exactly).",
+    "text": "Theorems for every store (any variables, span, cell type), flag combination, linker and symbol list: exported columns = model-order names (underscore-prefixed iff requested) ++ status? ++ iterations?, no duplicates, index = span, one cell per period, each column holds exactly its series; container export = index order; linker export = one table per submodel plus the linker's, keyed correctly (guard: linker name not a submodel key; count theorem without the guard); NAME vs STORAGE KEY made explicit (Obj = the instance __dict__, storageKey name = '_' ++ name, getItem = obj[name]): storageKey_injective, export_reads_own_series (for EVERY name list, underscore twins and member-like names included, the column of k is the __dict__ entry under storageKey k and, when the entries are pairwise different, of no other key: not the entry under k itself, not another variable's), container_reads_own_series, toObj_getItem (the __dict__ a constructor builds gives every name its own entry), from_dataframe_reads_own_series (round trip down to __dict__), attrLookup_differs_at_twin (Python's getattr would return Y's series for _Y; equal to obj[k] off __dict__ keys); from_dataframe on any export reproduces span and the cast of every class variable (identity for float models); symbols_roundtrip: for EVERY symbol list, with the reflected coercion of the installed pandas, the code's decoder (is_missing = None or float NaN -> None in name/lags/leads/equation/code, int(field) otherwise for lags/leads) returns the original list (iff every type is a Type member); in general the round trip holds for every list IFF the decoder maps the coercion's missing markers back to None in every optional field, which the code's decoder does for any coercion whose markers are None/NaN. String identity: codeDecoder_preserves_strings (for EVERY string s a present str cell decodes to s itself in name/equation/code: is_missing never fires on a str, '' and whitespace-only included), present_strings_roundtrip (under ANY coercion, whenever the round trip returns, it returns one symbol per input symbol and every present str field unchanged), symbols_roundtrip_strings (installed pandas: it does return), toPy_injective ('' and None, 'x ' and 'x' are different values of the model, so equality with the original list is field-exact), normalising_decoder_breaks_roundtrip (a decoder that alters even one string in one str field fails on a one-symbol list). FORM OF THE FLAGS: FlagForm (bool / np.bool_ / int / float by IEEE bits / str / None) with truthy = Python's bool(); export_depends_on_truthiness_only (two flag triples of any forms with equal truthiness give the same table), export_eq_export_of_bool, export_args_depend_on_value_only + linker_export_depends_on_truthiness_only (omitted keywords = reflected defaults; linker's own and every submodel's table), export_labels_any_form (labels are the names and the STRINGS status / iterations), identity_test_breaks_export (an export testing `flag is True` and taking another truthy flag for a label differs on EVERY store for every truthy non-True status flag), from_dataframe_strict_truthiness / _falsy / _data_columns. EXTENSION MIXINS: there is no class in the model - modelExport is a function of (names, series, span, flags); a mixin's to_dataframe is a Wrapper (what it hands to super(), what it does to the table); wrapChain_forwards + mixins_do_not_change_export (for every list of mixins in every MRO order the class's export IS model_to_dataframe's, underscore-prefixed variables included when requested), mixin_order_irrelevant, alias_export_renames_labels_only (use_aliases: index and cells unchanged), internal_flag_matters_iff and wrapper_dropping_internal_differs_iff / wrapChain_dropping_internal_differs_iff (a wrapper that does not pass include_internal on differs from the export for some flags IF AND ONLY IF the store has an underscore-prefixed variable, also below any forwarding wrappers). Tied to fsic/tools.py, BaseModel.from_dataframe, VectorContainer.to_dataframe by exact comparison of tables (cells as IEEE bits) on generated models/linkers/symbol lists; symbol round trips compared three ways (real output == model output == original list), including parser outputs and hand-built lists whose str fields are '' or carry leading/trailing/only whitespace (strings cross to the driver JSON-escaped and come back exactly).",
     "design_ref": "DESIGN.md §5 M8, §6 C19, §7 row 15",
-    "note": "Partial: pandas is outside the model (DataFrame/Index construction, dtype inference, None->NaN coercion, iterrows) - observed through the reflected table and by the oracle (dtype preservation). The two symbols round-trip findings (NaN for a missing name/equation/code; TypeError when every lags/leads entry is None) are fixed by fsic 56f842e: their oracle keys remain and a regression under them is a VIOLATION. Open known findings on the unchanged tree: a None span label is exported as NaN (df-index-none-label-nan); a model with a variable called `self` cannot be re-imported (from-dataframe-self-column-typeerror: from_dataframe_roundtrip carries the guard CtorNamesOk, from_dataframe_false_at_witness proves the unguarded statement false). Trusted: Lean kernel, standard axioms, the correspondence harness.",
+    "note": "Partial: pandas is outside the model (DataFrame/Index construction, dtype inference, None->NaN coercion, iterrows) - observed through the reflected table and by the oracle (dtype preservation). The two symbols round-trip findings (NaN for a missing name/equation/code; TypeError when every lags/leads entry is None) are fixed by fsic 56f842e: their oracle keys remain and a regression under them is a VIOLATION. Open known findings on the unchanged tree: an ALIASES key that is the name of a variable of the class makes the export show the target's series in that column (df-alias-shadows-variable); a None span label is exported as NaN (df-index-none-label-nan); a model with a variable called `self` cannot be re-imported (from-dataframe-self-column-typeerror: from_dataframe_roundtrip carries the guard CtorNamesOk, from_dataframe_false_at_witness proves the unguarded statement false). Trusted: Lean kernel, standard axioms, the correspondence harness.",
     "technique": "Lean 4 proof (induction over insertion-ordered dicts and symbol lists, decide on reflected tables) + differential correspondence check + property oracle on the real DataFrames"
 }
 
@@ -2578,7 +2604,7 @@ def _work(ctx, rep):
         with warnings.catch_warnings():
             warnings.simplefilter('ignore')
             t0, c0 = time.time(), time.process_time()
-            run_mixins(ctx, rep, share(6 if quick else 24), share(30 if quick else 400), share(12 if quick else 100))
+            run_mixins(ctx, rep, share(6 if quick else 24), share(30 if quick else 240), share(12 if quick else 60))
         rep.dist['worker-seconds-summed:mixins'] += int(time.time() - t0)
         rep.dist['worker-cpu-seconds-summed:mixins'] += int(time.process_time() - c0)
         return
